@@ -138,6 +138,26 @@ ADV_CHUNKS = [
 ]
 
 
+# every byte value on its own, and short ASCII texts whose only special character is a newline / carriage return
+# (no backslash, no non-ASCII: nothing that would send them down an escaping path for another reason)
+EDGE_STRINGS = [bytes([b]) for b in range(256)] + [
+    b"ab\ncd", b"\n", b"x\n.", b"hello world\n", b"\nP1\n", b"a\rb", b"I1\n.", b"\n\n", b"q" * 254 + b"\n", b"\x0e\x1b\x1f", b"e" * 255,
+    b"\x01\x02\x03\x04\x05\x06\x0e\x0f\x10\x11\x12\x13\x14\x15\x16\x17\x18\x19\x1a\x1b\x1c\x1d\x1e\x1f"]
+
+
+def edge_string_values():
+    """Each edge string as string, ByteString and Bytes, bare and as a list element / map key."""
+    out = []
+    for b in EDGE_STRINGS:
+        out += [("S", b), ("Y", b), ("B", b)]
+    for b in EDGE_STRINGS[256:]:
+        out += [("A", b), ("l", [("S", b), ("Y", b)]), ("m", [(("S", b), ("B", b))]), ("R", ("S", b)), ("c", b"m", b"n", [("S", b)])]
+    # globals whose module or name holds a newline (only STACK_GLOBAL can carry them: documented error below protocol 4)
+    for m, n in ((b"m", b"a\n."), (b"m\n", b"n"), (b"m", b"\n"), (b"\nm", b"n\n"), (b"mod", b"a\nb"), (b"m", b"n")):
+        out += [("C", m, n), ("c", m, n, [("I", 1)]), ("t", [("C", m, n), ("I", 2)])]
+    return out
+
+
 def _is_utf8(b):
     try:
         b.decode("utf-8")
